@@ -106,7 +106,7 @@ def run(fb, rep):
         if not sites:
             for rb in b.return_blocks():
                 if rb in reach or rb == start:
-                    srcs = flow.sources(b, 0, depth=10)
+                    srcs = flow.sources(b, 0, depth=40)
                     if any(s[0] == "call" and _is_eval(s[1]) for s in srcs):
                         returned = True
         if returned and not bad and not fed:
